@@ -28,6 +28,14 @@
 (*   exo    p          `x = [p1, ...]` in the exogenous section                       *)
 (*   time              `x = k`  (the parser adds  t = k  itself)                      *)
 (*   neg    u          `x = -u`   NOT an alias: FindExactMatches leaves it alone      *)
+(*   negs   u          `x = - u`  negb u  `x = -(u)`   other spellings of the same;   *)
+(*                     a rewriting pass of FindExactMatches removes every blank, so   *)
+(*                     negs turns into neg there (Norm)                               *)
+(*   prod u v  `x = u * v`    quo u v  `x = u / v`  (divisor; systems in which the    *)
+(*                     divisor is 0 in some period are not generated; the spec reads  *)
+(*                     `/` as truncating integer division - any function of the two   *)
+(*                     operand values serves the invariants - and the trace spec does *)
+(*                     not compare observed quotients with Sol)                       *)
 (*   sq u  `x = u**2`   nsq u  `x = -u**2` (= -(u**2))   dbl u  `x = 2*u`             *)
 (*   diff u v  `x = u - v`    (uses in which a textual substitution of u by a signed  *)
 (*                             expression without parentheses would change the value) *)
@@ -70,14 +78,21 @@ IsAlias(d) == d.kind \in {"alias", "palias"}         \* CleanupRightHandSide(eqn
 
 (* list_tokens(): the NAME tokens of a definition *)
 Names(d) ==
-    CASE d.kind \in {"alias", "palias", "inc", "neg", "sq", "nsq", "dbl"} -> {d.u}
-      [] d.kind \in {"sum", "diff"}            -> {d.u, d.v}
+    CASE d.kind \in {"alias", "palias", "inc", "neg", "negs", "negb", "sq", "nsq", "dbl"} -> {d.u}
+      [] d.kind \in {"sum", "diff", "prod", "quo"} -> {d.u, d.v}
       [] d.kind = "lag"                        -> {d.u, K}
       [] d.kind = "time"                       -> {K}
       [] OTHER                                 -> {}
 
 (* replace_token(eqn, x, y) *)
 Subst(d, x, y) == [d EXCEPT !.u = IF @ = x THEN y ELSE @, !.v = IF @ = x THEN y ELSE @]
+
+(* .replace(' ', '') applied to every equation by a rewriting pass *)
+Norm(d) == IF d.kind = "negs" THEN [d EXCEPT !.kind = "neg"] ELSE d
+
+Abs(a) == IF a < 0 THEN 0 - a ELSE a
+TruncDiv(a, b) == IF b = 0 THEN 0
+                  ELSE IF (a < 0) = (b < 0) THEN Abs(a) \div Abs(b) ELSE 0 - (Abs(a) \div Abs(b))
 
 (* value of a definition under a valuation of names (never applied to lag / exo) *)
 Den(d, val) ==
@@ -86,7 +101,9 @@ Den(d, val) ==
       [] d.kind = "sum"                 -> val[d.u] + val[d.v]
       [] d.kind = "inc"                 -> val[d.u] + 1
       [] d.kind = "time"                -> val[K]
-      [] d.kind = "neg"                 -> 0 - val[d.u]
+      [] d.kind \in {"neg", "negs", "negb"} -> 0 - val[d.u]
+      [] d.kind = "prod"                -> val[d.u] * val[d.v]
+      [] d.kind = "quo"                 -> TruncDiv(val[d.u], val[d.v])
       [] d.kind = "sq"                  -> val[d.u] * val[d.u]
       [] d.kind = "nsq"                 -> 0 - val[d.u] * val[d.u]
       [] d.kind = "dbl"                 -> 2 * val[d.u]
@@ -156,15 +173,22 @@ SolUpTo(sys, k) ==          \* sequence of valuations, index k+1 = period k
 (* Well-posed = closed (every name is defined) and acyclic within the period (which excludes  *)
 (* in particular the alias cycles  a = b; b = a  the parser's documentation forbids and the   *)
 (* reducing parser answers with 'Equality loop').  Bound of the instance, not of the code:     *)
-(* squares and lags are not mixed, so that no value is squared once per period and everything  *)
-(* stays far inside TLC's 32-bit integers.                                                     *)
+(* squares / products and lags are not mixed, so that no value is squared once per period and  *)
+(* everything stays far inside TLC's 32-bit integers; and no divisor is 0 in any period the     *)
+(* driver solves (0..Horizon; at k = 0 also not among the values the time-zero passes leave     *)
+(* at 0.), because a division by zero makes both real runs raise.                               *)
+Horizon == 3
 WellPosed(sys, alldefs) ==
     LET vars == SysVars(sys)
         base == [x \in vars \cup {K} |-> 0]
         r == Close(sys.endo, base, SeqVars(sys.exo) \cup SeqVars(sys.lagged) \cup {K}, Len(sys.endo))
     IN /\ \A x \in DOMAIN alldefs : Names(alldefs[x]) \subseteq vars \cup {K}
        /\ SeqVars(sys.endo) \subseteq r.known
-       /\ (\E x \in DOMAIN alldefs : alldefs[x].kind \in {"sq", "nsq"}) => sys.lagged = << >>
+       /\ (\E x \in DOMAIN alldefs : alldefs[x].kind \in {"sq", "nsq", "prod"}) => sys.lagged = << >>
+       /\ (\E x \in DOMAIN alldefs : alldefs[x].kind = "quo") =>
+             LET so == SolUpTo(sys, Horizon)
+             IN \A x \in DOMAIN alldefs : alldefs[x].kind = "quo" =>
+                   \A k \in 0..Horizon : so[k + 1][alldefs[x].v] # 0
 
 ----------------------------------------------------------------------------
 VARIABLES phase,    \* "parse" | "find" | "move" | "loop" | "done" | "error"
@@ -227,7 +251,8 @@ FindStepOp(st) ==
         y == st.endo[i].def.u
     IN IF IsAlias(st.all[y]) /\ st.all[y].u = x
        THEN [st EXCEPT !.phase = "error"]                       \* ValueError('Equality loop ...')
-       ELSE LET a == [o \in DOMAIN st.all |-> Subst(st.all[o], x, y)]
+       ELSE LET a == [o \in DOMAIN st.all |-> Norm(Subst(st.all[o], x, y))]
+               \* (the real pass rewrites every equation, also the unaffected ones)
             IN [st EXCEPT !.all = a,
                           !.toks = [o \in DOMAIN a |-> Names(a[o])],
                           !.pos = i + 1]
@@ -272,7 +297,9 @@ Options(i) ==
           \cup { D("lag", u, "", 0, << >>) : u \in NameSet }
           \cup { D("exo", "", "", 0, ExoPaths[x]) }
           \cup { TimeDef }
-          \cup { D(kd, u, "", 0, << >>) : kd \in {"neg", "sq", "nsq"}, u \in others }
+          \cup { D(kd, u, "", 0, << >>) : kd \in {"neg", "negs", "negb", "sq", "nsq"}, u \in others }
+          \cup { D("quo", q[1], q[2], 0, << >>) : q \in { r \in others \X others : r[1] # r[2] } }
+          \cup { D("prod", q[1], q[2], 0, << >>) : q \in { r \in others \X others : Idx(r[1]) < Idx(r[2]) } }
           \cup { D("dbl", u, "", 2, << >>) : u \in others }
           \cup { D("diff", q[1], q[2], 0, << >>) : q \in { r \in others \X others : r[1] # r[2] } }
     IN { d \in cands : d.kind \in KindsAt[i] }
